@@ -35,24 +35,32 @@ Theorem C14_spawn_holds : C14_spawn_statement.
 Proof. exact spawn_statement_holds. Qed.
 Print Assumptions C14_spawn_holds.
 
-(* (2) is false: the test is `fp + numreg > st`, so fp + numreg = st leaves
-   the last register one past the end (finding stack-top-off-by-one) *)
-Theorem C14_call_refuted : ~ C14_call_statement.
-Proof. exact call_statement_refuted. Qed.
+(* (2) holds for the code as it is (after fix 06a16cd: the tests use >=) *)
+Theorem C14_call_holds : C14_call_statement.
+Proof. exact call_statement_holds. Qed.
+Print Assumptions C14_call_holds.
 
-Theorem C14_call_partial :
-  forall fp numreg st r,
-    numreg < st -> fp + numreg <> st -> fp <= st -> 1 <= r <= numreg -> fp + r < after_call_check fp numreg st.
-Proof. exact call_check_in_bounds. Qed.
-Print Assumptions C14_call_partial.
+Theorem C14_holds : C14_statement.
+Proof. exact (conj spawn_statement_holds call_statement_holds). Qed.
+Print Assumptions C14_holds.
+
+(* the stack grows only when the callee frame does not fit *)
+Theorem C14_call_minimal : forall fp numreg st, fp + numreg < st -> after_call_check fp numreg st = st.
+Proof. exact call_check_minimal. Qed.
 
 (* the generated shape of the four window copies and of the growth tests *)
 Theorem C14_windows_ok :
   forallb window_ok spawn_windows = true /\ map (fun w => fst (fst (fst w))) spawn_windows = [0; 1; 2; 3]%N.
 Proof. exact spawn_windows_ok. Qed.
 
-Theorem C14_growth_tests_are_gt : growth_checks_all_gt = true.
-Proof. exact growth_tests_are_gt. Qed.
+Theorem C14_growth_tests_are_ge : growth_checks_all_ge = true /\ swap_growth_checks_all_ge = true.
+Proof. exact growth_tests_are_ge. Qed.
+
+(* the test before the fix, fp + numreg > st: the defect as a theorem about the model *)
+Theorem C14_gt_test_off_by_one :
+  ~ (forall fp numreg st r,
+      numreg <= 127 -> 512 <= st -> fp <= st -> 1 <= r <= numreg -> fp + r < after_call_check_gt fp numreg st).
+Proof. exact call_statement_gt_refuted. Qed.
 
 (* the window before the fix, regs[fp+off : fp+127]: both defects as theorems about the model *)
 Theorem C14_bounded_window_faults :
